@@ -676,7 +676,7 @@ class Gen:
             c = ("indicatorTarget", i, rng.choice([0, 1, 3, 10]))
         else:
             lo = rng.choice([None, 0, 1])
-            hi = rng.choice([None, 5, 50])
+            hi = rng.choice([None, 5, 50, 0])
             if lo is None and hi is None and rng.random() > self.invalid_p * 3:
                 hi = 20
             c = ("indicatorBounds", i, lo, hi)
